@@ -1,6 +1,6 @@
 SPECIFICATION Spec
 CONSTANTS
-  Mods = {"e", "a", "b"}
+  Mods = {"e", "a", "b", "c"}
   Entry = "e"
   Decls = {"d1"}
   AliasIds = {"i1", "i2"}
@@ -9,7 +9,7 @@ CONSTANTS
   Emit = TRUE
   AliasMods = {"e"}
   NsAlias = TRUE
-  StarMode = "any"
+  StarMode = "chain"
   ModRefs = FALSE
 INVARIANT Agree
 INVARIANT Closed
